@@ -715,6 +715,13 @@ func (vr *voterecords) vote(
 		return false, false, nil
 	}
 
+	// NOTE the record may be recycled for another stage point between
+	// the lookup and the lock
+	if fact, ok := signfact.Fact().(base.BallotFact); !ok ||
+		!fact.Point().Equal(vr.sp) || isaac.IsSuffrageConfirmBallotFact(fact) != vr.isc {
+		return false, false, nil
+	}
+
 	node := signfact.Node()
 
 	switch {
